@@ -688,10 +688,12 @@ def selftest(ctx: Ctx) -> bool:
     bad1 = {"events": ev, "obs": [[1, 0, 1, 0], [0, 0, 0, 1]], "err": 0}  # the unregistered hook still applied
     bad2 = {"events": ev[:2], "obs": [[1, 0, 1, 0], [1, 0, 1, 0]], "err": 0}  # second hook shows the first hook's filter
     f = ctx.path("obs.json")
-    tlc.write_json(f, [good, bad1, bad2])
+    bad3 = {"events": ev[:2], "obs": [], "err": 2}  # the second registration raised
+    tlc.write_json(f, [good, bad1, bad2, bad3])
     r = tlc.require_ok(tlc.run_tlc("HooksJudge", "HooksJudge.cfg", env={"OBS_FILE": f}), "selftest hooks")
     dis = sorted(tuple(p[1:]) for p in r.prints if isinstance(p, list) and p and p[0] == "DISAGREE")
-    ok1 = dis == [(2, 1, 1, "spurious"), (2, 1, 3, "spurious"), (3, 2, 1, "spurious"), (3, 2, 3, "spurious"), (3, 2, 4, "missing")]
+    ok1 = dis == [(2, 1, 1, "spurious"), (2, 1, 3, "spurious"), (3, 2, 1, "spurious"), (3, 2, 3, "spurious"), (3, 2, 4, "missing"),
+                  (4, 2, 0, "raised")]
     aev = [{"ev": "areg", "s": "schema", "f": "register", "c": "C1"}]
     tlc.write_json(f, [{"events": aev, "obs": [1, 0, 1, 0]}, {"events": aev, "obs": [1, 1, 1, 0]}, {"events": aev, "obs": [0, 0, 1, 0]}])
     r = tlc.require_ok(tlc.run_tlc("HooksAuthJudge", "HooksAuthJudge.cfg", env={"OBS_FILE": f}), "selftest auth")
